@@ -756,9 +756,11 @@ class FunctionParser(BaseParser):
                 return result
             else:
                 if inspect.isgenerator(item):
+                    # maybe a tail opt generator: it is just started, so it is resumed with next(),
+                    # whatever was sent to the generator that handed over
                     generator = item
+                    sent = None
                     continue
-                    # maybe a tail opt generator
 
                 if self.generator_yield_type:
                     try:
